@@ -99,6 +99,8 @@ DOCS = {
     'flow': '--- {a: [1, 2, {b: c}], "q": \'r\'}\n',
     'unicode': '--- "caf\\u00e9 \\U0001F600 \u00fcn\u00ef"\n',
     'dup_anchor': '---\n- &a 1\n- &a 2\n- *a\n',
+    'tag_e_verbatim': '---\n- !<tag:e.example,2000:thing> {a: 1}\n',
+    'tag_bang_verbatim': '--- !<tag:bang.example,2000:foo> bar\n',
     'pytuple': '--- !!python/tuple [1, 2]\n',
     'pyobj': '--- !!python/object:checks.c11.Obj {v: 1}\n',
     'long': '---\n' + ''.join('- item %d: [%d, %s]\n' % (i, i * i, 'abc' * (i % 7)) for i in range(60)),
@@ -312,8 +314,10 @@ def run_op(yaml, op, ctx):
         vals = ctx['values']
         try:
             if api in ('dump', 'dump_all'):
-                payload = [vals[v] for v in op['vals']]
-                hook = ctx.get('between_hook')
+                payload = [evolving_state(int(v[7:])) if v.startswith('evolve@') else vals[v] for v in op.get('vals', [])]
+                if op.get('evolve'):
+                    payload = EvolvingDocuments(op['evolve'])
+                hook = ctx.get('between_hook') if not op.get('evolve') else None
                 if hook is not None:
                     ctx['between_hook'] = None             # the session belongs to this call only
 
@@ -360,6 +364,41 @@ def run_op(yaml, op, ctx):
         return obs
     finally:
         CURRENT['nested'], CURRENT['ctx'] = saved
+
+
+def evolving_state(k, state=None):
+    """The state a documents iterable has reached when it yields for the k-th time (built fresh, or
+    by mutating `state` in place)."""
+    if state is None:
+        state = {'step': 0, 'seen': [], 'inner': {'n': 0, 'log': []}}
+        first = 0
+    else:
+        first = state['step'] + 1
+    for i in range(first, k + 1):
+        state['step'] = i
+        state['seen'].append('s%d' % i)
+        state['inner']['n'] = i * i
+        if i % 2:
+            state['inner']['log'].append({'at': i})
+    return state
+
+
+class EvolvingDocuments:
+    """A documents iterable that yields the SAME object every time and mutates it between yields
+    (the 'dump the current state after every step' pattern)."""
+
+    def __init__(self, n):
+        self.n = n
+
+    def __iter__(self):
+        state = evolving_state(0)
+        yield state
+        for k in range(1, self.n):
+            evolving_state(k, state)
+            yield state
+
+    def __len__(self):
+        return self.n
 
 
 def new_ctx():
@@ -477,7 +516,14 @@ def generate(seed, tier):
         docs = [r.choice([d for d in DOC_IDS if d != 'reent']) for _ in range(r.randint(2, 6))]
         return {'mode': 'stream_load', 'docs': docs, 'api': r.choice(GEN_APIS), 'cls': r.choice(LOADERS),
                 'form': r.choice(['str', 'bytes', 'bstream', 'tstream']), 'chunk': r.choice([1, 3, 16, 100, None])}
-    if x < 0.3:
+    if x < 0.24:
+        via = r.choice(['emit', 'emit', 'serialize_all'])
+        return {'mode': 'stream_emit', 'via': via, 'docs': [r.choice(VALID_DOCS) for _ in range(r.randint(2, 5))], 'cls': r.choice(DUMPERS),
+                'opts': r.choice(EMIT_OPTS if via == 'emit' else sorted(SERIALIZE_OPTS))}
+    if x < 0.27:
+        return {'mode': 'stream_dump', 'evolve': r.randint(2, 5), 'vals': [], 'cls': r.choice(DUMPERS[:4]),
+                'opts': r.choice(['none', 'canonical', 'flow', 'explicit', 'unsorted', 'dq'])}
+    if x < 0.34:
         n = r.randint(2, 5)
         opts = r.choice(['none', 'canonical', 'flow', 'tags', 'version', 'explicit', 'unicode', 'unsorted', 'dq'])
         return {'mode': 'stream_dump', 'vals': [r.choice([v for v in VALUE_IDS if not (v == 'set' and opts == 'unsorted')]) for _ in range(n)],
@@ -764,6 +810,8 @@ def execute(case):
         return execute_stream_load(yaml, case, out)
     if case['mode'] == 'stream_dump':
         return execute_stream_dump(yaml, case, out)
+    if case['mode'] == 'stream_emit':
+        return execute_stream_emit(yaml, case, out)
     status, res = kernel.forked(lambda: run_history(case), timeout=CASE_TIMEOUT - 30)
     if status == 'error':
         raise RuntimeError('history worker failed:\n%s' % res)
@@ -958,18 +1006,20 @@ def execute_stream_dump(yaml, case, out):
     base = {'api': 'dump_all', 'cls': case['cls'], 'opts': opts, 'to': 'return'}
     expected = []
     err_at = None
-    for n, v in enumerate(case['vals']):
+    vals = case['vals'] if not case.get('evolve') else ['evolve@%d' % k for k in range(case['evolve'])]
+    for n, v in enumerate(vals):
         want, _ = reference(dict(base, vals=[v]))
         if want['exc'] is not None:
             err_at = n
             break
         expected.append(doc_events(yaml, want['returned'])[0])
-        out['sigs'].append(observe.digest([v, case['vals'][n - 1] if n else None, case['cls'], opts]))
+        out['sigs'].append(observe.digest([v, vals[n - 1] if n else None, case['cls'], opts]))
 
     def work():
         ctx = new_ctx()
-        o = run_op(yaml, dict(base, vals=case['vals'], to='stream'), ctx)
-        return o
+        if case.get('evolve'):
+            return run_op(yaml, dict(base, evolve=case['evolve'], to='stream'), ctx)
+        return run_op(yaml, dict(base, vals=case['vals'], to='stream'), ctx)
     status, res = kernel.forked(work, timeout=60)
     if status != 'ok':
         if status == 'error':
@@ -977,8 +1027,10 @@ def execute_stream_dump(yaml, case, out):
         out['violations'].append({'class': status, 'detail': repr(res)})
         out['log'] = status
         return out
-    out['evals'] += len(case['vals'])
-    out['probes']['stream_dump_documents'] = len(case['vals'])
+    out['evals'] += len(vals)
+    out['probes']['stream_dump_documents'] = len(vals)
+    if case.get('evolve'):
+        out['probes']['stream_dump_evolving_documents'] = len(vals)
     text = res.get('written')
     try:
         got = doc_events(yaml, text)
@@ -997,6 +1049,59 @@ def execute_stream_dump(yaml, case, out):
                 'in_stream': clip(got[i] if i is not None and i < len(got) else None)}})
         if (res['exc'] is None) != (err_at is None):
             out['violations'].append({'class': 'dump-error-differs-from-isolated-dump', 'detail': {'case': case, 'error': res['exc'], 'isolated_error_at': err_at}})
+    out['log'] = observe.digest([text, res['exc']])
+    out['sample'] = case
+    return out
+
+
+def execute_stream_emit(yaml, case, out):
+    """emit / serialize_all of the events / nodes of d1..dn: per document the same events as for di alone."""
+    api = case['via']
+    base = {'api': api, 'cls': case['cls'], 'opts': case['opts'], 'terminate': True, 'to': 'return'}
+    expected = []
+    prevdoc = None
+    for d in case['docs']:
+        want, _ = reference(dict(base, docs=[d]))
+        out['sigs'].append(observe.digest([d, prevdoc, api, case['cls'], case['opts']]))
+        prevdoc = d
+        if want['exc'] is not None:
+            out['extra']['stream_emit_document_not_emittable_alone'] = 1
+            out['log'] = 'skip'
+            return out
+        try:
+            alone = doc_events(yaml, want['returned'])
+        except yaml.YAMLError:
+            alone = []
+        if len(alone) != 1:
+            # the document does not survive emission even alone (e.g. an empty plain scalar at the root
+            # written as nothing by LibYAML): that is C05's subject, nothing to compare here
+            out['extra']['stream_emit_document_not_reparsable_alone'] = 1
+            out['log'] = 'skip'
+            return out
+        expected.append(alone[0])
+    status, res = kernel.forked(lambda: run_op(yaml, dict(base, docs=case['docs']), new_ctx()), timeout=60)
+    if status != 'ok':
+        if status == 'error':
+            raise RuntimeError(res)
+        out['violations'].append({'class': status, 'detail': repr(res)})
+        out['log'] = status
+        return out
+    out['evals'] += len(case['docs'])
+    out['probes']['stream_emit_documents'] = len(case['docs'])
+    text = res.get('returned')
+    if res['exc'] is not None:
+        out['violations'].append({'class': 'emit-of-stream-fails-though-each-document-emits-alone', 'detail': {'case': case, 'error': res['exc']}})
+    else:
+        try:
+            got = doc_events(yaml, text)
+        except yaml.YAMLError as exc:
+            got = None
+            out['violations'].append({'class': 'emitted-stream-not-parsable', 'detail': {'case': case, 'error': exc_summary(yaml, exc), 'text': clip(text)}})
+        if got is not None and got != expected:
+            i = first_diff(expected, got)
+            out['violations'].append({'class': 'emitted-document-differs-from-isolated-emit', 'detail': {
+                'case': case, 'document': i, 'isolated': clip(expected[i] if i is not None and i < len(expected) else None),
+                'in_stream': clip(got[i] if i is not None and i < len(got) else None)}})
     out['log'] = observe.digest([text, res['exc']])
     out['sample'] = case
     return out
@@ -1039,7 +1144,11 @@ def shrink(case):
                     for cand in shr.list_candidates(op[key], 1):
                         yield dict(case, steps=steps[:i] + [dict(st, op=dict(op, **{key: cand}))] + steps[i + 1:])
         return
-    key = 'docs' if case['mode'] == 'stream_load' else 'vals'
+    if case.get('evolve'):
+        if case['evolve'] > 2:
+            yield dict(case, evolve=case['evolve'] - 1)
+        return
+    key = 'docs' if case['mode'] in ('stream_load', 'stream_emit') else 'vals'
     for cand in shr.list_candidates(case[key], 1):
         yield dict(case, **{key: cand})
     if case.get('chunk') is not None:
